@@ -387,7 +387,7 @@ def users_faithful(local: bool, nrem: int, ns: int, limit: int):
     check(u["remote_sessions"] == min(real_remote, 3), lambda: f"remote_sessions reads {u['remote_sessions']}, {real_remote} remote sessions are open (observation maximum 3)")
 
 
-def off_memory(ns: int, n_in: int, n_out: int, svc: int, fh: int, acc: int, execs: int, kind: str = "routed"):
+def off_memory(ns: int, n_in: int, n_out: int, svc: int, fh: int, acc: int, execs: int, traffic: bool, kind: str = "routed"):
     """History independence of the 'not ON' reading: a host is observed while ON with solver-chosen non-default
     quantities (NMNE counts, service state, file health, access / execution counts), then goes down and is observed
     again: its part of the observation is exactly what a host that is not ON reads as in a run without that history,
@@ -407,7 +407,12 @@ def off_memory(ns: int, n_in: int, n_out: int, svc: int, fh: int, acc: int, exec
         node = sim.network.get_node_by_hostname("client_1")
         ref_env, _ = _env(False, kind)
         ref_node = ref_env.game.simulation.network.get_node_by_hostname("client_1")
-    # step 1: ON, with quantities the solver chooses
+    # step 1: ON, with quantities the solver chooses (and, optionally, real monitored traffic on the interface)
+    if traffic:
+        with concrete():
+            node.ping("192.168.1.3", pings=2)
+            node.software_manager.software["dns-client"].check_domain_exists("arcd.com")
+        cover("with_traffic")
     nic = node.network_interface[1]
     nic.nmne = {"direction": {"inbound": {"keywords": {"*": n_in}}, "outbound": {"keywords": {"*": n_out}}}}
     node.software_manager.software["dns-client"].operating_state = pick(list(SS), svc)
@@ -503,8 +508,8 @@ HARNESSES = {
         "fn": off_memory,
         "quick": [{"fixed": {"ns": n}, "timeout": 200} for n in (1, 2)],
         "thorough": [{"fixed": {"ns": n, "kind": k}, "timeout": 600} for n in (1, 2, 3) for k in ("routed", "switched")],
-        "cover": ["went_down"],
-        "bounds": "two consecutive observations of one host: ON with unbounded NMNE / access / execution counts, every service state and file health, then SHUTTING_DOWN / OFF / BOOTING; compared with the same host going down without that history",
+        "cover": ["went_down", "with_traffic"],
+        "bounds": "two consecutive observations of one host: ON with unbounded NMNE / access / execution counts, every service state and file health, with or without real monitored traffic (ICMP, DNS) on its interface, then SHUTTING_DOWN / OFF / BOOTING; compared with the same host going down without that history",
     },
     "folder_memory": {
         "fn": folder_memory,
